@@ -4,6 +4,9 @@
 use std::collections::BinaryHeap;
 use std::sync::{Arc, Condvar, Mutex};
 
+#[cfg(ragc_verif)]
+use ragc_common::verif::{self, ev};
+
 /// A priority queue bounded by total bytes (not item count)
 ///
 /// Key properties:
@@ -104,11 +107,17 @@ impl<T: Ord> MemoryBoundedQueue<T> {
             && inner.current_size > 0
             && !inner.closed
         {
+            #[cfg(ragc_verif)]
+            self.verif_event(ev::Q_WAIT_FULL, size_bytes, &inner);
             inner = self.not_full.wait(inner).unwrap();
+            #[cfg(ragc_verif)]
+            self.verif_event(ev::Q_WAKE_FULL, size_bytes, &inner);
         }
 
         // Check if closed while we were waiting
         if inner.closed {
+            #[cfg(ragc_verif)]
+            self.verif_event(ev::Q_REFUSE, size_bytes, &inner);
             return Err(PushError::Closed);
         }
 
@@ -118,6 +127,8 @@ impl<T: Ord> MemoryBoundedQueue<T> {
             size: size_bytes,
         });
         inner.current_size += size_bytes;
+        #[cfg(ragc_verif)]
+        self.verif_event(ev::Q_ADMIT, size_bytes, &inner);
 
         // Signal that queue is not empty
         self.not_empty.notify_one();
@@ -132,10 +143,14 @@ impl<T: Ord> MemoryBoundedQueue<T> {
         let mut inner = self.inner.lock().unwrap();
 
         if inner.closed {
+            #[cfg(ragc_verif)]
+            self.verif_event(ev::Q_REFUSE, size_bytes, &inner);
             return Err(TryPushError::Closed);
         }
 
         if inner.current_size + size_bytes > self.capacity_bytes {
+            #[cfg(ragc_verif)]
+            self.verif_event(ev::Q_WOULD_BLOCK, size_bytes, &inner);
             return Err(TryPushError::WouldBlock);
         }
 
@@ -145,6 +160,8 @@ impl<T: Ord> MemoryBoundedQueue<T> {
             size: size_bytes,
         });
         inner.current_size += size_bytes;
+        #[cfg(ragc_verif)]
+        self.verif_event(ev::Q_ADMIT, size_bytes, &inner);
 
         // Signal that queue is not empty
         self.not_empty.notify_one();
@@ -173,17 +190,25 @@ impl<T: Ord> MemoryBoundedQueue<T> {
 
         // Wait while queue is empty and not closed
         while inner.items.is_empty() && !inner.closed {
+            #[cfg(ragc_verif)]
+            self.verif_event(ev::Q_WAIT_EMPTY, 0, &inner);
             inner = self.not_empty.wait(inner).unwrap();
+            #[cfg(ragc_verif)]
+            self.verif_event(ev::Q_WAKE_EMPTY, 0, &inner);
         }
 
         // If closed and empty, return None
         if inner.items.is_empty() {
+            #[cfg(ragc_verif)]
+            self.verif_event(ev::Q_EOS, 0, &inner);
             return None;
         }
 
         // Remove highest-priority item (BinaryHeap::pop returns max element)
         let priority_item = inner.items.pop().unwrap();
         inner.current_size -= priority_item.size;
+        #[cfg(ragc_verif)]
+        self.verif_event(ev::Q_TAKE, priority_item.size, &inner);
 
         // Signal that queue has space
         self.not_full.notify_one();
@@ -198,12 +223,16 @@ impl<T: Ord> MemoryBoundedQueue<T> {
         let mut inner = self.inner.lock().unwrap();
 
         if inner.items.is_empty() {
+            #[cfg(ragc_verif)]
+            self.verif_event(ev::Q_TRY_EMPTY, 0, &inner);
             return None;
         }
 
         // Remove highest-priority item (BinaryHeap::pop returns max element)
         let priority_item = inner.items.pop().unwrap();
         inner.current_size -= priority_item.size;
+        #[cfg(ragc_verif)]
+        self.verif_event(ev::Q_TAKE, priority_item.size, &inner);
 
         // Signal that queue has space
         self.not_full.notify_one();
@@ -220,6 +249,8 @@ impl<T: Ord> MemoryBoundedQueue<T> {
     pub fn close(&self) {
         let mut inner = self.inner.lock().unwrap();
         inner.closed = true;
+        #[cfg(ragc_verif)]
+        self.verif_event(ev::Q_CLOSE, 0, &inner);
 
         // Wake up all waiting threads
         self.not_full.notify_all();
@@ -249,6 +280,34 @@ impl<T: Ord> MemoryBoundedQueue<T> {
     /// Get capacity in bytes
     pub fn capacity(&self) -> usize {
         self.capacity_bytes
+    }
+
+    /// Verification hook: report a queue event (called with the queue mutex held, so the
+    /// order of these events is the order in which the operations took effect)
+    #[cfg(ragc_verif)]
+    fn verif_event(&self, kind: u32, size: usize, inner: &QueueInner<T>) {
+        verif::event(
+            kind,
+            [
+                size as u64,
+                inner.items.len() as u64,
+                inner.current_size as u64,
+                self.verif_id(),
+            ],
+        );
+    }
+
+    /// Verification hook: identity of the underlying queue (shared by all clones)
+    #[cfg(ragc_verif)]
+    pub fn verif_id(&self) -> u64 {
+        Arc::as_ptr(&self.inner) as usize as u64
+    }
+
+    /// Verification hook: consistent snapshot (items, bytes, closed) taken under the mutex
+    #[cfg(ragc_verif)]
+    pub fn verif_snapshot(&self) -> (usize, usize, bool) {
+        let inner = self.inner.lock().unwrap();
+        (inner.items.len(), inner.current_size, inner.closed)
     }
 }
 
